@@ -309,6 +309,34 @@ def evaluate(case):
                 continue
             c2 = dict(case, obj=o2)
             fails += check_general("%s then dumped again with main=%s" % (what, other), c2, o2, conc, ini_parse(f.getvalue()))
+        if not fails:
+            # the same through ONE real path: the file at the destination follows the latest call (the main variant is an argument
+            # of the call, not part of the tree), whether it is given by keyword or by position
+            import os
+            import shutil
+            import tempfile
+            d = tempfile.mkdtemp(prefix="verif-c17-")
+            try:
+                pth = os.path.join(d, ".treeinfo")
+                t.dump(pth, main_variant=mv)
+                fails += check_general("%s written to a path" % what, case, obj, conc, ini_parse(open(pth).read()))
+                for n_o, other in enumerate(["default"] + sorted(obj["tops"])):
+                    if other == obj["main"] or fails:
+                        continue
+                    o2 = dict(obj, main=other)
+                    arg = main_arg(o2, conc)
+                    try:
+                        if (conc.rot + n_o) % 2:
+                            t.dump(pth, arg)
+                        else:
+                            t.dump(pth, main_variant=arg)
+                    except Exception as exc:
+                        fails.append("%s: dump to the same path with main variant %r raised %s: %s" % (what, other, type(exc).__name__, exc))
+                        continue
+                    fails += check_general("%s then dumped to the same path with main=%s (%s)" % (what, other, "by position" if (conc.rot + n_o) % 2 else "by keyword"),
+                                           dict(case, obj=o2), o2, conc, ini_parse(open(pth).read()))
+            finally:
+                shutil.rmtree(d, ignore_errors=True)
         return fails[:5]
     exp_ng = {k: v for k, v in exp.items() if k != "general"}
     why = contains(exp_ng, got)
